@@ -3,7 +3,7 @@ import re
 
 from .cfg import DefUse, origins, _is_panic_callee
 from .effects import accesses_of, writes_of, resolve_fields, getter_field
-from .facts import strip_generics, op_place, op_const, Place
+from .facts import strip_generics, op_place, op_const, Place, short_path
 
 N = "incremental::node::Node"
 NODE_IMPL = "<incremental::node::Node as incremental::node::ErasedNode>::"
